@@ -33,14 +33,32 @@ pub enum FsyncSchedule {
     NoFsync,  // disable fsyncing entirely (maximum throughput, no durability)
 }
 
+#[cfg(not(walrus_verif))]
 pub(crate) const DEFAULT_BLOCK_SIZE: u64 = 10 * 1024 * 1024; // 10mb
+#[cfg(walrus_verif)]
+pub(crate) const DEFAULT_BLOCK_SIZE: u64 =
+    crate::wal::verif::geom(option_env!("WALRUS_VERIF_BLOCK_SIZE"), 10 * 1024 * 1024);
+#[cfg(not(walrus_verif))]
 pub(crate) const BLOCKS_PER_FILE: u64 = 100;
+#[cfg(walrus_verif)]
+pub(crate) const BLOCKS_PER_FILE: u64 =
+    crate::wal::verif::geom(option_env!("WALRUS_VERIF_BLOCKS_PER_FILE"), 100);
+#[cfg(not(walrus_verif))]
 pub(crate) const MAX_ALLOC: u64 = 1 * 1024 * 1024 * 1024; // 1 GiB cap per block
+#[cfg(walrus_verif)]
+pub(crate) const MAX_ALLOC: u64 =
+    crate::wal::verif::geom(option_env!("WALRUS_VERIF_MAX_ALLOC"), 1 * 1024 * 1024 * 1024);
 // Expose so integration tests can match the on-disk layout when poking raw files.
 pub const PREFIX_META_SIZE: usize = 256;
 pub(crate) const MAX_FILE_SIZE: u64 = DEFAULT_BLOCK_SIZE * BLOCKS_PER_FILE;
 pub(crate) const MAX_BATCH_ENTRIES: usize = 2000;
+#[cfg(not(walrus_verif))]
 pub(crate) const MAX_BATCH_BYTES: u64 = 10 * 1024 * 1024 * 1024; // 10 GiB total payload limit
+#[cfg(walrus_verif)]
+pub(crate) const MAX_BATCH_BYTES: u64 = crate::wal::verif::geom(
+    option_env!("WALRUS_VERIF_MAX_BATCH_BYTES"),
+    10 * 1024 * 1024 * 1024,
+);
 
 static LAST_MILLIS: AtomicU64 = AtomicU64::new(0);
 
@@ -49,6 +67,8 @@ pub(crate) fn now_millis_str() -> String {
         .duration_since(SystemTime::UNIX_EPOCH)
         .unwrap_or_else(|_| std::time::Duration::from_secs(0))
         .as_millis();
+    #[cfg(walrus_verif)]
+    let system_ms = crate::wal::verif::clock(system_ms);
 
     let mut observed = LAST_MILLIS.load(Ordering::Relaxed);
     loop {
